@@ -118,6 +118,10 @@ FORMS = {
     'vec22':    (2, 2, 'div(u)*div(v)*dx + inner(u,v)*dx', [('u', 2), ('v', 2)], False, {}, _t_vec22, False, 1),
     'vec21':    (2, 2, 'div(u)*v*dx', [('u', 2), ('v', 1)], False, {}, _t_vec21, False, 1),
     'pg':       (2, 2, 'u.dx(0)*v*dx + u*v*dx', [('u', 1, 0), ('v', 1, 1)], True, {}, _t_pg, False, 1),
+    # two-space forms with forced degree relations (same source as 'pg': no extra compilation): nqp must be max over BOTH spaces
+    'pg_hi':    (2, 2, 'u.dx(0)*v*dx + u*v*dx', [('u', 1, 0), ('v', 1, 1)], True, {'_deg': 'hi'}, _t_pg, False, 1),
+    'pg_lo':    (2, 2, 'u.dx(0)*v*dx + u*v*dx', [('u', 1, 0), ('v', 1, 1)], True, {'_deg': 'lo'}, _t_pg, False, 1),
+    'pg_mix':   (2, 2, 'u.dx(0)*v*dx + u*v*dx', [('u', 1, 0), ('v', 1, 1)], True, {'_deg': 'mix'}, _t_pg, False, 1),
     'funcvec':  (2, 1, 'inner(F, v)*dx', [('v', 2)], False, {'F': 'fieldv'}, _t_funcvec, False, 0),
     'matpar':   (2, 2, 'inner(K.dot(grad(u)), grad(v))*dx', None, False, {'K': 'par2'}, _t_matpar, False, 1),
     'funcphys': (2, 1, 'sin(g)*v.dx(1)*dx + g*v*dx', None, False, {'g': 'phys'}, _t_funcphys, True, 1),
@@ -141,11 +145,11 @@ QUICK_FORMS = list(FORMS)
 # generators (worker side)
 # ---------------------------------------------------------------------------------------------
 
-def rand_kv(rng, pmin, pmax, maxspans, breaks=None):
+def rand_kv(rng, pmin, pmax, maxspans, breaks=None, p=None, minspans=1):
     from pyiga import bspline
-    p = int(rng.integers(pmin, pmax + 1))
+    p = int(rng.integers(pmin, pmax + 1)) if p is None else int(p)
     if breaks is None:
-        n = int(rng.integers(1, maxspans + 1))
+        n = int(rng.integers(minspans, maxspans + 1))
         # non-uniform dyadic breakpoints in [0,1]
         cuts = sorted(set(int(c) for c in rng.integers(1, 16, size=n - 1)))
         breaks = np.array([0.0] + [c / 16.0 for c in cuts] + [1.0])
@@ -292,12 +296,21 @@ def make_case(name, seed, tier):
     pmax = 4 if dim <= 2 else 2
     maxspans = {1: 4, 2: 4 if tier == 'thorough' else 3, 3: 2}[dim]
     kvs0, brks = [], []
+    degrel = inputs.get('_deg')
+    p0s = p1s = [None] * dim
+    if degrel == 'hi':        # test degree > trial degree on every axis (by 2: a too small nqp under-integrates visibly)
+        p0s = [int(rng.integers(1, 3)) for _ in range(dim)]; p1s = [p + 2 for p in p0s]
+    elif degrel == 'lo':      # trial degree > test degree on every axis
+        p1s = [int(rng.integers(1, 3)) for _ in range(dim)]; p0s = [p + 2 for p in p1s]
+    elif degrel == 'mix':     # axis 0: test > trial, axis 1: trial > test; overall maximum attained only by the test space
+        a, b = int(rng.integers(1, 3)), int(rng.integers(2, 4))
+        p0s = [a, b]; p1s = [max(a, b) + 1, b - 1]
     for k in range(dim):
-        kv, br = rand_kv(rng, pmin, pmax, maxspans)
+        kv, br = rand_kv(rng, pmin, pmax, maxspans, p=p0s[k], minspans=2 if degrel else 1)
         kvs0.append(kv); brks.append(br)
     kvs0 = tuple(kvs0)
     if two_space:
-        kvs1 = tuple(rand_kv(rng, pmin, pmax, maxspans, breaks=br)[0] for br in brks)
+        kvs1 = tuple(rand_kv(rng, pmin, pmax, maxspans, breaks=br, p=p1s[k])[0] for k, br in enumerate(brks))
     else:
         kvs1 = kvs0
     geo, gkind = rand_geo(rng, dim, cylinder=bool(inputs.get('_cyl')))
@@ -349,7 +362,7 @@ def build_oracle(name, case, asm_nqp=None):
     from pyiga.quadrature import make_tensor_quadrature
     dim = case['dim']
     kvs0, kvs1 = case['kvs0'], case['kvs1']
-    nqp = max(kv.p for kv in kvs0 + kvs1) + 1 if FORMS[name][4] else max(kv.p for kv in kvs0) + 1
+    nqp = max(kv.p for kv in tuple(kvs0) + tuple(kvs1)) + 1
     if case.get('boundary') is not None:
         from pyiga.quadrature import make_boundary_quadrature
         grid, gw = make_boundary_quadrature([kv.mesh for kv in kvs0], nqp, case['boundary'])
@@ -387,8 +400,24 @@ def assemble_terms(terms, arity, W, nblk, absolute=False):
     return blocks
 
 
+def install_nqp_recorder():
+    """record the `nqp` every assembler passes to make_tensor_quadrature / make_boundary_quadrature
+    (`self.nqp` is a private cdef attribute): wrap the functions before any assembler module binds them"""
+    import pyiga.quadrature as Q
+    if getattr(Q, '_verif_nqp_log', None) is None:
+        Q._verif_nqp_log = []
+        for fn in ('make_tensor_quadrature', 'make_boundary_quadrature'):
+            orig = getattr(Q, fn)
+            def wrap(*a, _o=orig, **k):
+                Q._verif_nqp_log.append(int(a[1]))
+                return _o(*a, **k)
+            setattr(Q, fn, wrap)
+    return Q._verif_nqp_log
+
+
 def worker(name, seed, tier):
     """runs in a subprocess: returns a dict with comparison results and Lean requests"""
+    nqp_log = install_nqp_recorder()
     import pyiga
     from pyiga import assemble, mlmatrix
     pyiga.set_max_threads(1)
@@ -409,7 +438,15 @@ def worker(name, seed, tier):
         out['violations'].append(('build:' + name, 'form does not build/load/instantiate: %s: %s' % (type(ex).__name__, str(ex)[:300]), desc, True))
         return out
     out['t_build'] = round(time.time() - t0, 2)
+    nqp_used = nqp_log[-1] if nqp_log else None
     o, nqp, grid, gw = build_oracle(name, case)
+    # the property: max-degree+1 Gauss nodes per knot span, the maximum taken over ALL knot vectors the form is applied to
+    nqp_want = max(kv.p for kv in tuple(case['kvs0']) + tuple(case['kvs1'])) + 1
+    assert nqp == nqp_want
+    out['counts']['nqp diffs'] = 1
+    if nqp_used != nqp_want:
+        out['violations'].append(('nqp:' + name, 'assembler integrates with %s Gauss nodes per span; the property demands max degree + 1 = %d (trial degrees %s, test degrees %s)'
+                                  % (nqp_used, nqp_want, [kv.p for kv in case['kvs0']], [kv.p for kv in case['kvs1']]), desc, True))
     terms = termf(o)
     terms_abs = termf(AbsOracle(o))
     kvs0, kvs1 = case['kvs0'], case['kvs1']
@@ -428,6 +465,9 @@ def worker(name, seed, tier):
         cfac = max(cfac, 1e-9)
     out['counts'].update({'dim=%d' % dim: 1, 'geo=' + case['gkind']: 1, 'arity=%d' % arity: 1,
                           'degrees=' + ','.join(str(kv.p) for kv in kvs0): 1, 'nodes': o.nn})
+    if two_space:
+        rel = ['>' if a.p > b.p else '<' if a.p < b.p else '=' for a, b in zip(kvs1, kvs0)]
+        out['counts']['two-space test?trial degree per axis: ' + ''.join(rel)] = 1
     is_vec = hasattr(asm, 'num_components')
 
     def guard(f, key):
@@ -760,7 +800,7 @@ def run(ctx):
                         'boundary integrals: value-only integrands (the assembler keeps only the boundary basis function along the normal axis)',
                         'tolerance rule: |impl - oracle| <= 4*(#nodes + 40*(d^2+#terms))*2^-53 * sum_q |terms| (1e-9 * that sum for forms with libm calls)']
     ctx.rule = ('forms: %d (13 compiled from strings incl. cos/exp/sin/sqrt/abs, parameters of shape ()/(d,)/(d,d), parametric/physical inputs, 2x2 and 2x1 component blocks, '
-                'two-space Petrov-Galerkin, arity-1 scalar and vector, surface measure on a 2D->3D surface, boundary integral on a random side; 8 shipped assemblers); per form and seed: '
+                'two-space Petrov-Galerkin (random degrees plus forced test>trial, trial>test and per-axis mixed; nqp actually requested diffed against max degree over both spaces + 1), arity-1 scalar and vector, surface measure on a 2D->3D surface, boundary integral on a random side; 8 shipped assemblers); per form and seed: '
                 'random degrees 0/1-4, 1-3(4) non-uniform dyadic spans with repeated '
                 'knots, B-spline or NURBS perturbed-identity geometry; every entry vs numpy oracle, 200 no-common-support pairs exactly 0.0, 8-30 entries re-derived by the Lean model '
                 'from per-node integrand tables; non-trivial = instance with >= 2 spans on some axis' % len(FORMS))
